@@ -91,6 +91,32 @@ def get_use_tree(
             ] + [name for name in public_names if name not in rename_map.values()]
         if not only_list:
             return use_dict
+    # A default PUBLIC module does not re-export the USE associated names that it
+    # declares PRIVATE
+    elif curr_path:
+        prefix = f"{scope.FQSN}::"
+        own_names = {child.name.lower() for child in scope.children}
+        private_names = {
+            name[len(prefix) :].lower()
+            for name in scope.file_ast.private_list
+            if name.lower().startswith(prefix)
+        } - own_names
+        if private_names and only_list:
+            only_list = [
+                name
+                for name in only_list
+                if rename_map.get(name, name) not in private_names
+            ]
+            if not only_list:
+                return use_dict
+        elif private_names:
+            # Hidden the way USE mod, local => name hides "name"
+            rename_map = {
+                local: name
+                for local, name in rename_map.items()
+                if name not in private_names
+            }
+            rename_map.update({f"#private::{name}": name for name in private_names})
     # Add recursively
     for use_stmnt in scope.use:
         # if use_stmnt.mod_name not in obj_tree:
